@@ -331,8 +331,25 @@ impl EventParser {
                     if segments.len() >= 2 {
                         let owner = segments[segments.len() - 2].ident.to_string();
                         let generic_container = [
-                            "Vec", "HashMap", "HashSet", "BTreeMap", "BTreeSet", "Option",
-                            "Result", "Box", "Rc", "Arc", "Self",
+                            "Vec",
+                            "HashMap",
+                            "HashSet",
+                            "BTreeMap",
+                            "BTreeSet",
+                            "Option",
+                            "Result",
+                            "Box",
+                            "Rc",
+                            "Arc",
+                            "Self",
+                            // a trait in front of its constructor (Default::default(),
+                            // From::from(x)) names no type
+                            "Default",
+                            "From",
+                            "TryFrom",
+                            "FromStr",
+                            "FromIterator",
+                            "Into",
                         ]
                         .contains(&owner.as_str());
                         // Only a constructor tells the type of its result: Type::new(..),
@@ -514,6 +531,15 @@ impl EventParser {
                 let outer = symbols.clone();
                 for input in &expr_closure.inputs {
                     Self::unbind_pattern(input, symbols);
+                    // a typed closure parameter is a typed binding: |user: User| app.emit(.., user)
+                    if let Pat::Type(pat_type) = input {
+                        if let Pat::Ident(pat_ident) = &*pat_type.pat {
+                            symbols.insert(
+                                pat_ident.ident.to_string(),
+                                self.extract_type_name(&pat_type.ty),
+                            );
+                        }
+                    }
                 }
                 self.extract_events_from_expr(
                     &expr_closure.body,
@@ -916,12 +942,15 @@ impl EventParser {
             .rev()
             .map(|s| s.ident.unraw().to_string());
         let last = segments.next().unwrap_or_default();
-        // `Self { .. }` inside an impl block: the type is not named here
-        if last == "Self" {
+        // `Self { .. }` inside an impl block: the type is not named here. The variants of the
+        // prelude (Some(x), None::<T>, Option::Some(x), Result::Ok(x)) name no project type
+        // either, and their type arguments are not shown
+        let prelude = ["Self", "Some", "None", "Ok", "Err", "Option", "Result"];
+        if prelude.contains(&last.as_str()) {
             return "unknown".to_string();
         }
         match segments.next() {
-            Some(previous) if previous == "Self" => "unknown".to_string(),
+            Some(previous) if prelude.contains(&previous.as_str()) => "unknown".to_string(),
             Some(previous) if previous.starts_with(char::is_uppercase) => {
                 if struct_expression || camel_case(&last) {
                     previous
